@@ -142,8 +142,8 @@ Definition same_txmeta (t t' : txst) : Prop :=
   moveToMeta t' = moveToMeta t /\ tmeta t' = tmeta t /\ st_ovf_alloc t' = st_ovf_alloc t /\
   t_end (tdata t') = t_end (tdata t).
 
-Lemma data_alloc_tx_spec a t n regs cnt a' t' :
-  DataInv a -> 0 < n < 2^32 -> n <= data_avail a ->
+Lemma data_alloc_tx_spec0 a t n regs cnt a' t' :
+  DataInv a -> 0 <= n < 2^32 -> n <= data_avail a ->
   data_alloc_regions a t n = (regs, cnt, a', t') ->
   exists regs1 regs2,
     regs = regs1 ++ regs2 /\
@@ -189,6 +189,21 @@ Proof.
     destruct (0 <? rest) eqn:Er; lia. }
   split; [repeat split|]. unfold same_txmeta. cbn. repeat split; first [reflexivity | lia].
 Qed.
+
+Lemma data_alloc_tx_spec a t n regs cnt a' t' :
+  DataInv a -> 0 < n < 2^32 -> n <= data_avail a ->
+  data_alloc_regions a t n = (regs, cnt, a', t') ->
+  exists regs1 regs2,
+    regs = regs1 ++ regs2 /\
+    wfl 2 regs1 /\
+    (forall id, inl id regs1 <-> inl id (fregions (a_free (data a))) /\ ~ inl id (fregions (a_free (data a')))) /\
+    (forall id, inl id (fregions (a_free (data a'))) -> inl id (fregions (a_free (data a)))) /\
+    (forall id, inl id regs2 -> a_end (data a) <= id) /\
+    t_allocated (tdata t') = set_add_all (regions_ids regs1) (t_allocated (tdata t)) /\
+    t_new (tdata t') = set_add_all (regions_ids regs2) (t_new (tdata t)) /\
+    a_end (data a) <= a_end (data a') /\
+    DataInv a' /\ same_static a a' /\ same_txmeta t t'.
+Proof. intros ID Hn. apply data_alloc_tx_spec0; [exact ID | lia]. Qed.
 
 (* ---------- the remaining effects of Tx.Free on a page allocated by the transaction ---------- *)
 Lemma data_free_fresh_extra a t id a' t' :
